@@ -82,29 +82,15 @@ func runC19(c *an.Ctx) {
 		pos   ssa.Instruction
 	}
 	var cases []retCase
-	for _, b := range allow.Blocks {
-		if len(b.Instrs) == 0 || b == allow.Recover {
+	for _, o := range fi.Outcomes() {
+		if len(o.Results) != 1 {
 			continue
 		}
-		ret, ok := b.Instrs[len(b.Instrs)-1].(*ssa.Return)
-		if !ok || len(ret.Results) != 1 {
-			continue
+		from := o.Ret.Block()
+		if o.From != nil {
+			from = o.From
 		}
-		if ph, isPhi := ret.Results[0].(*ssa.Phi); isPhi && fi.Term(ph).K == an.KPhi {
-			for i, e := range ph.Edges {
-				pred := ph.Block().Preds[i]
-				fs := an.FactSet{}
-				for k, f := range fi.FactsAtBlock(pred) {
-					fs[k] = f
-				}
-				for _, f := range fi.EdgeFacts(pred, ph.Block()) {
-					fs[f.Key()] = f
-				}
-				cases = append(cases, retCase{fi.Term(e), fs, pred, ret})
-			}
-			continue
-		}
-		cases = append(cases, retCase{fi.Term(ret.Results[0]), fi.FactsAt(ret), b, ret})
+		cases = append(cases, retCase{o.Results[0], o.Facts, from, o.Ret})
 	}
 	records := recordStores(fi, allow, nowT.Key())
 	// the list the admission test looks at is the list as the expiry step of THIS call left it: the value of reqs that
@@ -137,7 +123,8 @@ func runC19(c *an.Ctx) {
 		}
 	}
 	// every path from the entry to the load passes an expiry write first
-	postExpiry := func(ld *an.Term) bool {
+	var postExpiry func(ld *an.Term) bool
+	postExpiry = func(ld *an.Term) bool {
 		li, ok := ld.Val.(ssa.Instruction)
 		if !ok || ld.K != an.KLoad || len(expiryDefs) == 0 {
 			return false
@@ -174,17 +161,53 @@ func runC19(c *an.Ctx) {
 		}
 		return true
 	}
+	// the kept list as a local value (reqs := r.reqs; ... reqs = reqs[idx:] ...; if len(reqs) < r.limit): the values that
+	// the expiry stores write back; the expiry rules below decide what they are
+	keptVals := map[string]bool{}
+	for _, d := range expiryDefs {
+		if st, ok := d.(*ssa.Store); ok {
+			if _, isPhi := st.Val.(*ssa.Phi); isPhi {
+				keptVals[fi.Term(st.Val).Key()] = true
+			}
+		}
+	}
+	// the pop-front form (for len(reqs) > 0 && !reqs[0].After(exp) { reqs = reqs[1:] }): a test placed after the loop
+	// sees the list as expiry left it, also when the loop ran zero times
+	popLoops := popFrontLoops(p, allow)
+	basePostExpiry := postExpiry
+	postExpiry = func(ld *an.Term) bool {
+		if li, ok := ld.Val.(ssa.Instruction); ok && ld.K == an.KLoad {
+			for _, l := range popLoops {
+				if !l.body[li.Block()] && l.header.Dominates(li.Block()) {
+					recorded := false
+					for _, r := range records {
+						if (r.Block() == li.Block() && an.Dominates(r, li)) || (r.Block() != li.Block() && reachable(r.Block(), li.Block())) {
+							recorded = true
+						}
+					}
+					if !recorded {
+						return true
+					}
+				}
+			}
+		}
+		return basePostExpiry(ld)
+	}
 	staleTest := false
 	isLimitTest := func(t *an.Term) bool {
 		if t.K == an.KBin && t.S == "<" && t.A[0].K == an.KLen {
+			if f2, _, ok := mapFieldOfTerm(t.A[1]); !ok || f2 != "limit" {
+				return false
+			}
+			if keptVals[t.A[0].A[0].Key()] {
+				return true
+			}
 			if fld, _, ok := mapFieldOfTerm(t.A[0].A[0]); ok && fld == "reqs" {
-				if f2, _, ok := mapFieldOfTerm(t.A[1]); ok && f2 == "limit" {
-					if !postExpiry(t.A[0].A[0]) {
-						staleTest = true
-						return false
-					}
-					return true
+				if !postExpiry(t.A[0].A[0]) {
+					staleTest = true
+					return false
 				}
+				return true
 			}
 		}
 		return false
@@ -199,6 +222,9 @@ func runC19(c *an.Ctx) {
 				return true, short(t.Key())
 			}
 			if !admit && t.S == "<=" && t.A[1].K == an.KLen {
+				if f2, _, ok := mapFieldOfTerm(t.A[0]); ok && f2 == "limit" && keptVals[t.A[1].A[0].Key()] {
+					return true, short(t.Key())
+				}
 				if fld, _, ok := mapFieldOfTerm(t.A[1].A[0]); ok && fld == "reqs" {
 					if f2, _, ok := mapFieldOfTerm(t.A[0]); ok && f2 == "limit" {
 						return true, short(t.Key())
@@ -215,6 +241,16 @@ func runC19(c *an.Ctx) {
 			}
 		}
 		return false
+	}
+	// what the call's timestamp is appended to is the kept list (not some other list)
+	for _, st := range records {
+		call := st.Val.(*ssa.Call)
+		bt := fi.Term(call.Call.Args[0])
+		okBase := keptVals[bt.Key()]
+		if fld, _, ok := mapFieldOfTerm(bt); ok && fld == "reqs" && postExpiry(bt) {
+			okBase = true
+		}
+		c.Check(okBase, "PRED", allow, st.Pos(), an.KeyOf(allow, "record-base"), "the admitted call's timestamp is appended to the list as the expiry step left it", "append base "+short(bt.Key()))
 	}
 	nTrue := 0
 	for i, cs := range cases {
@@ -374,6 +410,12 @@ func runC19(c *an.Ctx) {
 					}
 				}
 				nSl++
+				if okPop, isPop := popFrontStore(c, p, ef.fn, st, retain, storedV); isPop {
+					if okPop {
+						haveEmpty, haveSuffix = true, true
+					}
+					continue
+				}
 				e, sfx := keptStore(c, p, ef.fn, st, retain, storedV)
 				haveEmpty = haveEmpty || e
 				haveSuffix = haveSuffix || sfx
@@ -395,6 +437,129 @@ func runC19(c *an.Ctx) {
 	}
 	// the expiry runs before the admission test on every path: every store that reslices dominates the limit test / the returns
 	_ = lf
+}
+
+// popFrontLoops: the loops of fn in which the request list loses its first element (reqs = reqs[1:]).
+func popFrontLoops(p *an.Program, fn *ssa.Function) []*natLoop {
+	fi := p.Info(fn)
+	var out []*natLoop
+	for _, b := range fn.Blocks {
+		for _, in := range b.Instrs {
+			st, ok := in.(*ssa.Store)
+			if !ok {
+				continue
+			}
+			if f, ok := fi.RefClass(st.Addr).FieldOf("RateLimiter"); !ok || f != "reqs" {
+				continue
+			}
+			if sl, ok := st.Val.(*ssa.Slice); ok && sl.High == nil {
+				if lo := fi.Term(sl).A[1]; isConstTerm(lo, "1") {
+					if l := innermostLoopOf(fn, st.Block()); l != nil {
+						out = append(out, l)
+					}
+				}
+			}
+		}
+	}
+	return out
+}
+
+// popFrontStore decides the expiry step written as a loop that drops the oldest entry while it is expired:
+//
+//	for len(reqs) > 0 { if reqs[0].After(exp) { break }; reqs = reqs[1:] }
+//
+// The store is reqs = reqs[1:] of the current list; it runs only when the retention test on reqs[0] of that same list
+// was negative; the loop is left only with a retained first element or an empty list; nothing else in the loop writes
+// the list. Then what remains is the suffix that starts at the first unexpired entry (or nothing).
+func popFrontStore(c *an.Ctx, p *an.Program, fn *ssa.Function, st *ssa.Store, retain *ssa.Call, storedV ssa.Value) (ok, isPop bool) {
+	fi := p.Info(fn)
+	sl, isSl := st.Val.(*ssa.Slice)
+	if !isSl || sl.High != nil || retain == nil {
+		return false, false
+	}
+	vt := fi.Term(sl)
+	if !isConstTerm(vt.A[1], "1") {
+		return false, false
+	}
+	loop := innermostLoopOf(fn, st.Block())
+	if loop == nil || !loop.body[retain.Block()] {
+		return false, false
+	}
+	isPop = true
+	key := an.KeyOf(fn, "kept:pop-front")
+	why := ""
+	base := vt.A[0]
+	// the tested element is element 0 of the list that is resliced
+	stT := fi.Term(storedV)
+	okElem := stT.K == an.KLoad && len(stT.A) == 1 && stT.A[0].K == an.KIA && isConstTerm(stT.A[0].A[1], "0") && stT.A[0].A[0].Key() == base.Key()
+	if !okElem {
+		why = "the retention test is not made on element 0 of the list that loses its first element"
+	}
+	retT := fi.Term(retain)
+	neg := false
+	for _, f := range fi.FactsAt(st) {
+		if f.Neg && f.T.Key() == retT.Key() {
+			neg = true
+		}
+	}
+	if !neg && why == "" {
+		why = "the first element is dropped without the retention test having been negative"
+	}
+	// exits: a retained first element, or an empty list
+	for _, u := range fn.Blocks {
+		if !loop.body[u] {
+			continue
+		}
+		for _, v := range u.Succs {
+			if loop.body[v] {
+				continue
+			}
+			found := false
+			var fs []an.Fact
+			if n := len(u.Instrs); n > 0 {
+				fs = append(fs, fi.FactsAt(u.Instrs[n-1]).Sorted()...)
+			}
+			fs = append(fs, fi.EdgeFacts(u, v)...)
+			for _, f := range fs {
+				if !f.Neg && f.T.Key() == retT.Key() {
+					found = true
+				}
+			}
+			if found {
+				continue
+			}
+			// the list is empty on this way out: len(current list) <= 0
+			empty := false
+			sys := fi.SysForEdge(u, v)
+			for _, f := range fs {
+				f.T.Walk(func(t *an.Term) {
+					if t.K == an.KLen {
+						if fld, _, isF := mapFieldOfTerm(t.A[0]); isF && fld == "reqs" && sys.ProveLE(t, 0) {
+							empty = true
+						}
+					}
+				})
+			}
+			if !empty && why == "" {
+				why = "the loop can be left with a non-empty list whose first element was not found unexpired (exit near " + p.Pos(u.Instrs[len(u.Instrs)-1].Pos()) + ")"
+			}
+		}
+	}
+	// no other write of the list inside the loop
+	for _, b := range fn.Blocks {
+		if !loop.body[b] {
+			continue
+		}
+		for _, in := range b.Instrs {
+			if o, isSt := in.(*ssa.Store); isSt && o != st {
+				if f, isF := fi.RefClass(o.Addr).FieldOf("RateLimiter"); isF && f == "reqs" && why == "" {
+					why = "another store writes the list inside the expiry loop"
+				}
+			}
+		}
+	}
+	c.Check(why == "", "PRED", fn, st.Pos(), key, "the expiry loop drops the oldest entry exactly while it is expired (reqs = reqs[1:] under !reqs[0].After(now-rate)) and stops at the first unexpired entry or an empty list", why)
+	return why == "", true
 }
 
 // keptOutcome is one way the value stored to reqs by the expiry step comes about: a slice base[lo:hi] and the facts
@@ -505,9 +670,13 @@ func keptStore(c *an.Ctx, p *an.Program, fn *ssa.Function, st *ssa.Store, retain
 	}()) {
 		return
 	}
-	// the edges that leave the scan after a retained element was found, and those that leave it when the list is exhausted
-	type edge struct{ from, to *ssa.BasicBlock }
-	var found []edge
+	// the edges that leave the scan: after a retained element was found, or with the list exhausted
+	type edge struct {
+		from, to *ssa.BasicBlock
+		found    bool
+	}
+	var exits []edge
+	nFound := 0
 	for _, b := range fn.Blocks {
 		if !loop.body[b] {
 			continue
@@ -523,8 +692,9 @@ func keptStore(c *an.Ctx, p *an.Program, fn *ssa.Function, st *ssa.Store, retain
 				}
 			}
 			if pos {
-				found = append(found, edge{b, sx})
+				nFound++
 			}
+			exits = append(exits, edge{b, sx, pos})
 		}
 	}
 	feasibleAfter := func(o keptOutcome, e edge) bool {
@@ -575,33 +745,60 @@ func keptStore(c *an.Ctx, p *an.Program, fn *ssa.Function, st *ssa.Store, retain
 		if sys.Inconsistent() {
 			continue
 		}
+		// the ways out of the scan that can lead to this outcome
+		var viaFound, viaExhausted []edge
+		for _, e := range exits {
+			if !feasibleAfter(o, e) {
+				continue
+			}
+			if e.found {
+				viaFound = append(viaFound, e)
+			} else {
+				viaExhausted = append(viaExhausted, e)
+			}
+		}
 		hc, _ := o.hi.IsConst()
 		lc, _ := o.lo.IsConst()
 		isEmpty := hc == "0" && lc == "0" || hc == "end" && o.lo.Key() == an.LenTerm(o.base).Key()
 		switch {
 		case isEmpty:
 			sawEmpty = true
-			okE := true
 			why := "no way from a retained element reaches this store with these facts"
-			for _, e := range found {
-				if feasibleAfter(o, e) {
-					okE = false
-					why = "reachable after the scan found a retained element (edge from " + p.Pos(e.from.Instrs[len(e.from.Instrs)-1].Pos()) + ")"
-				}
+			if len(viaFound) > 0 {
+				e := viaFound[0]
+				why = "reachable after the scan found a retained element (edge from " + p.Pos(e.from.Instrs[len(e.from.Instrs)-1].Pos()) + ")"
 			}
-			c.Check(okE && len(found) > 0, "PRED", fn, st.Pos(), an.KeyOf(fn, "kept:empty"), "the list is emptied only when the scan found no timestamp to retain", why)
+			c.Check(len(viaFound) == 0 && nFound > 0, "PRED", fn, st.Pos(), an.KeyOf(fn, "kept:empty"), "the list is emptied only when the scan found no timestamp to retain", why)
 		case hc == "end":
-			sawSuffix = true
+			// reqs[I:] with I the scan index: correct exactly on the ways on which the scan stopped at a retained element
+			// (the element at I is unexpired, everything before it is expired); when the scan ran out, I == len and
+			// reqs[I:] is the empty list
 			okS := o.lo.Key() == scanI.Key()
-			if okS {
-				okS = false
-				for _, f := range o.facts {
-					if !f.Neg && f.T.Key() == retT.Key() {
-						okS = true
+			why := "lower bound " + short(o.lo.Key())
+			if okS && len(viaFound) > 0 {
+				sawSuffix = true
+			}
+			if okS && len(viaExhausted) > 0 {
+				// the same store also serves the exhausted scan: then I == len(base), the empty list
+				for _, e := range viaExhausted {
+					es := fi.SysForEdge(e.from, e.to)
+					for _, f := range o.facts {
+						es.AddFact(f)
+					}
+					if !(es.ProveDiffLE(an.LenTerm(o.base), scanI, 0) && es.ProveDiffLE(scanI, an.LenTerm(o.base), 0)) {
+						okS = false
+						why = "the store is also reached after an exhausted scan, where the index is not known to equal len(list)"
 					}
 				}
+				if okS {
+					sawEmpty = true
+				}
 			}
-			c.Check(okS, "PRED", fn, st.Pos(), an.KeyOf(fn, "kept:suffix"), "the list keeps the suffix that starts at the index where the scan first found t.After(now-rate) (scan from the oldest entry, stop at the first unexpired one)", "lower bound "+short(o.lo.Key()))
+			if okS && len(viaFound) == 0 && len(viaExhausted) == 0 {
+				okS = false
+				why = "no way out of the scan reaches this store"
+			}
+			c.Check(okS, "PRED", fn, st.Pos(), an.KeyOf(fn, "kept:suffix"), "the list keeps the suffix that starts at the index where the scan first found t.After(now-rate) (scan from the oldest entry, stop at the first unexpired one)", why)
 		default:
 			c.Violated("PRED", fn, st.Pos(), key, "the request list is resliced in an unexpected way: ["+short(o.lo.Key())+":"+short(o.hi.Key())+"]", "expected reqs[idx:] or reqs[:0]")
 		}
